@@ -545,6 +545,35 @@ def r9_column_info(ctx):
                "columns is decided differently, so required / regex / strict verdicts change for some frames")
 
 
+DEDUP_CTORS = {"fromkeys", "unique", "OrderedDict", "drop_duplicates"}
+
+
+def r9_sorted_names_distinct(ctx):
+    """`ordered=True` walks the frame's columns against `column_info.sorted_column_names`, one schema position per frame
+    column.  The list of matched names is collected per schema component, so a frame column matched by two components (a
+    literal and a regex, two overlapping patterns) occurs twice in it: `sorted_column_names` has to be the de-duplicated
+    sequence (dict.fromkeys keeps first occurrences in order), otherwise the iterator lags behind and a correctly
+    ordered frame is reported out-of-order."""
+    from .c08 import PDC
+    f = ctx.ix.cls(PDC).lookup("collect_column_info")
+    ex = Expander(f.node)
+    calls = [c for c in calls_in(f.node) if callee_last(c) == "ColumnInfo"]
+    if not calls:
+        raise AnalysisError("collect_column_info builds no ColumnInfo")
+    for c in calls:
+        v = kw(c, "sorted_column_names")
+        if v is None:
+            ctx.ob("R9", f, "ColumnInfo.sorted_column_names is given", False, "keyword missing", f.loc(c))
+            continue
+        e = ex.expand(v)
+        ok = any(isinstance(x, ast.Call) and callee_last(x) in DEDUP_CTORS for x in ast.walk(e)) or \
+            any(isinstance(x, (ast.DictComp, ast.SetComp)) for x in ast.walk(e))
+        ctx.ob("R9", f, "collect_column_info: sorted_column_names holds each matched column once, in schema order", ok,
+               f"`{txt(v)[:50]}` de-duplicates the matched names" if ok else
+               f"`{txt(v)[:50]}` is the raw list of matched names: a frame column selected by two schema components is listed twice, the ordered check "
+               "compares every following column with the wrong schema position and rejects a correctly ordered frame", f.loc(c))
+
+
 def r10_monotone_verdict(ctx):
     """A core check that loops over several constraint units (the column sets of a joint uniqueness declaration) fails as
     soon as one unit fails: once the verdict variable is False no later iteration may overwrite it.  After a falsifying
@@ -670,6 +699,7 @@ def run(ctx):
     r11_verdict_from_output(ctx)
     r10_monotone_verdict(ctx)
     r9_column_info(ctx)
+    r9_sorted_names_distinct(ctx)
     r7_dtype_equality(ctx)
     r8_verdict_observers(ctx)
     r1_wiring(ctx)
